@@ -17,7 +17,7 @@ ID = 'C17'
 CASE_TYPE = 'C17.case'
 EXTRA_IMPORTS = 'From PJ Require Import Model.Bind Lemmas.BindL.\n'
 RULE = ('all signatures of 0..3 (quick) / 0..4 (thorough) parameters over positional-or-keyword / keyword-only kinds x defaults x '
-        '{no context, context parameter by name at each position} x {function, coroutine, class-based view method} (+ the same function registered a second time without the context designation and served first) (+ an exclusion predicate shared by the validator and the schema extractor, selecting each non-empty subset of the defaulted parameters, by name or by the type of the default); for each the OpenAPI '
+        '{no context, context parameter by name at each position} x {function, coroutine, class-based view method (own, inherited from a base view, @staticmethod)} (+ the same function registered a second time without the context designation and served first) (+ an exclusion predicate shared by the validator and the schema extractor, selecting each non-empty subset of the defaulted parameters, by name or by the type of the default); for each the OpenAPI '
         '3.0 / 3.1 request schema and the OpenRPC params list are REALLY generated (pydantic extractor) and their properties / required '
         'read out; every params object over subsets of (parameter names + one undocumented name + the context name) is dispatched. '
         'distinct = distinct (signature, context, kind); non-trivial = the signature has a parameter')
@@ -53,8 +53,8 @@ def generate(seed, tier):
     for sig in signatures(3 if tier == 'quick' else 4):
         ctxs = [None] + [n for n, k, d in sig if not d]
         for ctx in ctxs:
-            for kind in ('function', 'coroutine', 'view'):
-                if kind == 'view' and ctx is not None:
+            for kind in ('function', 'coroutine', 'view', 'view-inherited', 'view-static'):
+                if kind.startswith('view') and ctx is not None:
                     continue
                 cases.append({'sig': sig, 'ctx': ctx, 'kind': kind})
                 if ctx is not None and kind == 'function':
@@ -98,7 +98,20 @@ def build(case):
     is_async = case['kind'] == 'coroutine'
     disp = (AsyncDispatcher if is_async else Dispatcher)()
     ns = {'ViewMixin': ViewMixin, 'INJ': Inject('inj')}
-    if case['kind'] == 'view':
+    if case['kind'] == 'view-inherited':
+        # the handler is defined in a base view; the registered view only inherits it
+        exec('class B(ViewMixin):\n    def __init__(self, ctx=None):\n        pass\n    def f(this%s):\n        return 1\n'
+             'class V(B):\n    pass\n' % ((', ' + params) if params else ''), ns)
+        reg = MethodRegistry()
+        reg.view(ns['V'], context='ctx')
+        disp.add_methods(reg)
+    elif case['kind'] == 'view-static':
+        exec('class V(ViewMixin):\n    def __init__(self, ctx=None):\n        pass\n    @staticmethod\n    def f(%s):\n        return 1\n'
+             % params, ns)
+        reg = MethodRegistry()
+        reg.view(ns['V'], context='ctx')
+        disp.add_methods(reg)
+    elif case['kind'] == 'view':
         exec('class V(ViewMixin):\n    def __init__(self, ctx=None):\n        pass\n    def f(self%s):\n        return 1\n'
              % ((', ' + params) if params else ''), ns)
         reg = MethodRegistry()
@@ -142,7 +155,7 @@ def observe(case):
         disp.dispatch(json.dumps({'jsonrpc': '2.0', 'id': 0, 'method': 'g', 'params': {p[0]: 0 for p in case['sig']}}), context='CTX')
     docs = doc_params(disp, predicate(case))
     names = [p[0] for p in case['sig']]
-    universe = names + ['zz'] + (['ctx'] if case['kind'] == 'view' else [])
+    universe = names + ['zz'] + (['ctx', 'self', 'this'] if case['kind'].startswith('view') else [])
     probes = []
     for r in range(len(universe) + 1):
         for sub in itertools.combinations(universe, r):
